@@ -778,3 +778,10 @@ CHECKS['C04']['rule'] = CHECKS['C04']['rule'] + ("; protocol waittable (diff): 5
 CHECKS['C04']['trusted'] = CHECKS['C04']['trusted'] + [
     "protocol waittable: the recording wrapper of KVNode.w (learns the channel an id is registered with), the raft stand-in, the hook call `verifTriggerGap(id, rd != nil)` inserted after w.l.Unlock() of wait.Trigger "
     "(a no-op unless the protocol installs its hook), channel identity by first appearance"]
+
+# C11: the error path of the apply loop clears the shared write batch (Gen/Abort.lean, Props/C11Abort.lean)
+CHECKS['C11']['props'] = CHECKS['C11']['props'] + ['ZanVerif.Props.C11Abort']
+CHECKS['C11']['gens'] = CHECKS['C11']['gens'] + ['Abort']
+CHECKS['C11']['level_text'] = CHECKS['C11']['level_text'] + (" SHARED WRITE BATCH (Props/C11Abort): over the pinned error branch of ApplyRaftRequest (IsNeedAbortError false for errTooMuchBatchSize only; "
+    "AbortBatchForError clears the store's batch first, in front of its IsBatched guard): C11_failed_write_leaves_nothing_staged — a command that answered an error leaves nothing of what it had staged in the shared "
+    "batch, so a later write never commits it; C11_event_batch_holds_only_successful_writes over a whole apply event.")
